@@ -109,7 +109,7 @@ def spec(tier, seed):
     for a in range(n):
         fn = "h%d" % a
         L = ["def %s(b: int, c: int, j: int) -> bool:" % fn, '    """', "    post: _", '    """',
-             "    return hist_ok(%d, _sk.box(b, 0, %d), _sk.box(c, 0, %d), _sk.box(j, 0, %d))" % (a, n - 1, (n - 1) if tier == "thorough" else 0, 9 if tier == "thorough" else 7)]
+             "    return hist_ok(%d, _sk.box(b, 0, %d), _sk.box(c, 0, %d), _sk.box(j, 0, %d))" % (a, n - 1, 2 if tier == "thorough" else 0, 9 if tier == "thorough" else 7)]
         obs.append(Ob(fn, "\n".join(L), sample="hy.repr history (object %d, any, any) with the registered printer raising at its j-th invocation, j symbolic in 0..9; objects: %r" % (a, FRESH), group="history"))
     tw = "\n".join(["def twin0(j: int) -> bool:", '    """', "    post: _", '    """', "    hist_ok(1, 2, 0, _sk.box(j, 0, 3))", "    return False"])
     obs.append(Ob("twin0", tw, twin=True, group="twin"))
